@@ -23,7 +23,9 @@ def main(tier):
     replay.run_cfg(chk, 'MC_C12', {'MaxKids': 1 if tier == 'quick' else 2}, 'ns%d' % (1 if tier == 'quick' else 2))
     # the caller's map next to the library's own definitions: `h|*:checked`, `*|*:link` ... under a map with a default namespace (MC_C17_ns,
     # second pool family): the map decides h|* and *|*, never how the definition of the pseudo-class is read
-    replay.run_cfg(chk, 'MC_C17_ns', {'MaxNodes': 2 if tier == 'quick' else 3}, 'ns-state')
+    # (two nodes in both tiers: with three, nested forms and foreign parents between an element and its dir ancestor appear - zones the
+    # property C17 leaves open and checks/c17.py routes to drift; the namespace dimension needs no depth)
+    replay.run_cfg(chk, 'MC_C17_ns', {'MaxNodes': 2}, 'ns-state')
     trace_part(chk, tier)
     return chk.finish()
 
